@@ -33,6 +33,7 @@ Section Copy.
   Notation link_ok := (link_ok f0 dr dcs).
   Notation outcome := FsCopySysP.outcome.
   Let b := f_next f0.
+  Notation keeps_new := (keeps_new dr (f_next f0)).
 
   Definition lok (s : cst) : Prop := links_ok (s_fs s) (s_links s).
   (* no recorded path lies at or below p *)
@@ -40,32 +41,35 @@ Section Copy.
 
   (* a step that stays at or below directory d *)
   Definition stays (d : N) (s s' : cst) : Prop :=
-    Ctx (s_fs s') /\ above d (s_fs s) (s_fs s') /\ (lok s -> lok s').
+    Ctx (s_fs s') /\ above d (s_fs s) (s_fs s') /\ (lok s -> lok s') /\ keeps_new (s_fs s) (s_fs s').
 
   Lemma stays_refl d s : Ctx (s_fs s) -> stays d s s.
-  Proof. intros C. split; auto. split; [apply above_refl|auto]. Qed.
+  Proof. intros C. split; auto. split; [apply above_refl|]. split; [auto|apply keeps_new_refl]. Qed.
 
   Lemma stays_trans d s1 s2 s3 : is_dir (s_fs s1) d = true -> stays d s1 s2 -> stays d s2 s3 -> stays d s1 s3.
-  Proof. intros Hd (C2 & A2 & L2) (C3 & A3 & L3). split; auto. split; [eapply above_trans; eauto|auto]. Qed.
+  Proof.
+    intros Hd (C2 & A2 & L2 & K2) (C3 & A3 & L3 & K3). split; auto. split; [eapply above_trans; eauto|].
+    split; [auto|eapply keeps_new_trans; eauto].
+  Qed.
 
   Lemma stays_same d s s' : Ctx (s_fs s) -> s_fs s' = s_fs s -> s_links s' = s_links s -> stays d s s'.
   Proof.
     intros C E1 E2. split; [rewrite E1; auto|]. split; [rewrite E1; apply above_refl|].
-    unfold lok. rewrite E1, E2. auto.
+    split; [unfold lok; rewrite E1, E2; auto|rewrite E1; apply keeps_new_refl].
   Qed.
 
-  Lemma stays_grows d s f : Ctx f -> above d (s_fs s) f -> grows (s_fs s) f -> stays d s (mk s f).
+  Lemma stays_grows d s f : Ctx f -> above d (s_fs s) f -> grows (s_fs s) f -> keeps_new (s_fs s) f -> stays d s (mk s f).
   Proof.
-    intros C A G. split; auto. split; auto. unfold lok. simpl. intros H. eapply links_ok_grows; eauto.
+    intros C A G K. split; auto. split; auto. split; auto. unfold lok. simpl. intros H. eapply links_ok_grows; eauto.
   Qed.
 
   Lemma stays_meta d s f : meta_post (s_fs s) f -> stays d s (mk s f).
-  Proof. intros (C & A & _ & _ & _ & _ & _ & G). apply stays_grows; auto. Qed.
+  Proof. intros M. pose proof (k_meta c f0 dr dcs _ _ M) as K. destruct M as (C & A & _ & _ & _ & _ & _ & G). apply stays_grows; auto. Qed.
 
   Lemma stays_shrinks s f cs d x : Tgt (s_fs s) cs d x -> Ctx f -> above d (s_fs s) f -> shrinks (s_fs s) f d x ->
-    forgotten s (tpath cs x) -> stays d s (mk s f).
+    keeps_new (s_fs s) f -> forgotten s (tpath cs x) -> stays d s (mk s f).
   Proof.
-    intros T C A S Hf. split; auto. split; auto. unfold lok. simpl. intros H e He.
+    intros T C A S K Hf. split; auto. split; auto. split; auto. unfold lok. simpl. intros H e He.
     eapply (link_ok_shrinks c f0 dr dcs (s_fs s) f cs d x); eauto; try apply T.
   Qed.
 
@@ -120,19 +124,21 @@ Section Copy.
     intros T Hf H. unfold os_remove in H. rewrite bind_run, sys_run in H. cbn [fst snd] in H.
     destruct (sys_unlink c (s_fs s) (tpath cs x)) as [f1 r1] eqn:E1. cbn [fst snd] in H.
     pose proof (s_unlink c f0 dr dcs _ cs d x f1 r1 T E1) as Sh1.
+    pose proof (k_unlink c f0 dr dcs _ cs d x f1 r1 T E1) as K1.
     destruct (t_unlink c f0 dr dcs _ cs d x f1 r1 T E1) as (C1 & A1 & [[e ->]|[-> P1]]).
-    - fold (mk s f1) in H. pose proof (stays_shrinks s f1 cs d x T C1 A1 Sh1 Hf) as S1.
+    - fold (mk s f1) in H. pose proof (stays_shrinks s f1 cs d x T C1 A1 Sh1 K1 Hf) as S1.
       rewrite bind_run, sys_run in H. cbn [fst snd] in H.
       destruct (sys_rmdir c (s_fs (mk s f1)) (tpath cs x)) as [f2 r2] eqn:E2. cbn [fst snd] in H.
       assert (T1 : Tgt (s_fs (mk s f1)) cs d x) by (eapply tgt_stays; eauto).
       pose proof (s_rmdir c f0 dr dcs _ cs d x f2 r2 T1 E2) as Sh2.
+      pose proof (k_rmdir c f0 dr dcs _ cs d x f2 r2 T1 E2) as K2.
       assert (S2 : Ctx f2 -> above d (s_fs (mk s f1)) f2 -> stays d (mk s f1) (mk (mk s f1) f2)).
-      { intros C2 A2. apply (stays_shrinks (mk s f1) f2 cs d x T1 C2 A2 Sh2). apply forgotten_mk; auto. }
+      { intros C2 A2. apply (stays_shrinks (mk s f1) f2 cs d x T1 C2 A2 Sh2 K2). apply forgotten_mk; auto. }
       destruct (t_rmdir c f0 dr dcs _ cs d x f2 r2 T1 E2) as (C2 & A2 & [[e2 ->]|[-> P2]]);
         rewrite expect_ok_run in H; injection H as <- <-.
       + split; [|split; [reflexivity|discriminate]]. eapply stays_trans; eauto. eapply tgt_dir; eauto.
       + split; [|split; [reflexivity|intros _; exact P2]]. eapply stays_trans; eauto. eapply tgt_dir; eauto.
-    - injection H as <- <-. split; [apply (stays_shrinks s f1 cs d x T C1 A1 Sh1 Hf)|].
+    - injection H as <- <-. split; [apply (stays_shrinks s f1 cs d x T C1 A1 Sh1 K1 Hf)|].
       split; [reflexivity|]. intros _. exact P1.
   Qed.
 
@@ -175,7 +181,7 @@ Section Copy.
     stays d s s' /\ forgotten s' p /\ s_fs s' = s_fs s.
   Proof.
     intros C s'. unfold s'. rewrite forget_links_run. cbn [fst]. split; [|split; [|reflexivity]].
-    - split; [exact C|]. split; [apply above_refl|]. unfold lok. simpl. intros H e He.
+    - split; [exact C|]. split; [apply above_refl|]. split; [|apply keeps_new_refl]. unfold lok. simpl. intros H e He.
       apply filter_In in He. apply H. apply He.
     - intros e He. simpl in He. apply filter_In in He. destruct He as [_ He]. apply negb_true_iff in He. exact He.
   Qed.
@@ -195,11 +201,12 @@ Section Copy.
     rewrite bind_run, sys_run in H. cbn [fst snd] in H. change (s_fs s0) with (s_fs s) in H.
     destruct (sys_remove_all c (s_fs s) (tpath cs x)) as [f1 r1] eqn:E1. cbn [fst snd] in H.
     pose proof (s_remove_all c f0 dr dcs _ cs d x f1 r1 T E1) as Sh1.
+    pose proof (k_remove_all c f0 dr dcs _ cs d x f1 r1 T E1) as K1.
     destruct (t_remove_all c f0 dr dcs _ cs d x f1 r1 T E1) as (C1 & A1 & _).
     rewrite expect_ok_run in H. injection H as <- <-.
     assert (T0 : Tgt (s_fs s0) cs d x) by exact T.
     split.
-    - eapply stays_trans; [eapply tgt_dir; eauto|exact S0|]. apply (stays_shrinks s0 f1 cs d x T0 C1 A1 Sh1 F0).
+    - eapply stays_trans; [eapply tgt_dir; eauto|exact S0|]. apply (stays_shrinks s0 f1 cs d x T0 C1 A1 Sh1 K1 F0).
     - intros p Hp e He. simpl in He. apply filter_In in He. apply Hp. apply He.
   Qed.
 
@@ -243,6 +250,7 @@ Section Copy.
     - rewrite bind_run, sys_run in H. cbn [fst snd] in H.
       destruct (sys_mkdir c (s_fs s1) (tpath cs x) (m_mode (i_meta fi))) as [f2 r2] eqn:E2. cbn [fst snd] in H.
       pose proof (g_mkdir c f0 dr dcs _ cs d x _ f2 r2 T1 E2) as G2.
+      pose proof (k_mkdir c f0 dr dcs _ cs d x _ f2 r2 T1 E2) as K2.
       destruct (t_mkdir c f0 dr dcs _ cs d x _ f2 r2 T1 E2) as (C2 & A2 & [[e ->]|[-> [Hc Hi]]]);
         fold (mk s1 f2) in H; rewrite bind_run, expect_ok_run in H; injection H as <- <-.
       + split; [|split; [simpl; auto|discriminate]]. eapply stays_trans; eauto. apply stays_grows; auto.
@@ -265,7 +273,8 @@ Section Copy.
 
   Lemma mstep_stays d s s' : mstep s s' -> stays d s s'.
   Proof.
-    intros [(C & A & _ & _ & _ & _ & _ & G) E]. split; auto. split; auto.
+    intros [M E]. pose proof (k_meta c f0 dr dcs _ _ M) as K.
+    destruct M as (C & A & _ & _ & _ & _ & _ & G). split; auto. split; auto. split; auto.
     unfold lok. rewrite E. intros H. eapply links_ok_grows; eauto.
   Qed.
 
@@ -368,6 +377,7 @@ Section Copy.
     rewrite bind_run, sys_run in H. cbn [fst snd] in H. change (s_fs s1) with (s_fs s) in H.
     destruct (sys_open_wronly c (s_fs s) (tpath cs x) true 438) as [f2 r2] eqn:E2. cbn [fst snd] in H.
     pose proof (g_open_creat c f0 dr dcs _ cs d x _ f2 r2 T Hab E2) as G2.
+    pose proof (k_open_creat c f0 dr dcs _ cs d x _ f2 r2 T Hab E2) as K2.
     destruct (t_open_creat c f0 dr dcs _ cs d x _ f2 r2 T Hab E2) as (C2 & A2 & P2).
     fold (mk s1 f2) in H.
     assert (S2 : stays d s1 (mk s1 f2)) by (apply stays_grows; auto).
@@ -401,10 +411,10 @@ Section Copy.
   Definition ok_res {A} (r : A + N) : Prop := exists a, r = inl a.
   (* like [stays], but the link map is only claimed to be sound when the step succeeded *)
   Definition stays_ok {A} (d : N) (s s' : cst) (r : A + N) : Prop :=
-    Ctx (s_fs s') /\ above d (s_fs s) (s_fs s') /\ (ok_res r -> lok s -> lok s').
+    Ctx (s_fs s') /\ above d (s_fs s) (s_fs s') /\ (ok_res r -> lok s -> lok s') /\ keeps_new (s_fs s) (s_fs s').
 
   Lemma stays_stays_ok {A} d s s' (r : A + N) : stays d s s' -> stays_ok d s s' r.
-  Proof. intros (C & A0 & L). split; auto. Qed.
+  Proof. intros (C & A0 & L & K). split; auto. Qed.
 
   Lemma link_ok_tgt f p : Ctx f -> link_ok f p -> exists cs x d i, p = tpath cs x /\ Tgt f cs d x /\
     blookup x (dents f d) = Some i /\ b <= i /\ isfile f i.
@@ -429,8 +439,8 @@ Section Copy.
     { intros s0 s1 r1 E0 L0 EL H1.
       assert (T0 : Tgt (s_fs s0) cs d x) by (rewrite E0; auto).
       assert (Hab0 : absent (s_fs s0) d x) by (rewrite E0; auto).
-      destruct (copy_file_spec s0 s1 r1 cs d x src T0 Hab0 H1) as ((C1 & A1 & L1) & EL1 & _ & P1).
-      split; [split; auto; split; [rewrite <- E0; auto|auto]|].
+      destruct (copy_file_spec s0 s1 r1 cs d x src T0 Hab0 H1) as ((C1 & A1 & L1 & K1) & EL1 & _ & P1).
+      split; [split; auto; split; [rewrite <- E0; auto|split; [auto|rewrite <- E0; auto]]|].
       intros Hr. destruct (P1 Hr) as (i & Hn & Hbi & Hf). exists i. split; auto. split; auto. apply isfile_not_link; auto. }
     destruct (N.ltb 1 (nlink (s_fs s) ino)); [|eapply Hplain; eauto].
     rewrite bind_run in H. unfold get_links at 1 in H.
@@ -441,6 +451,9 @@ Section Copy.
       rewrite bind_run, sys_run in H. cbn [fst snd] in H.
       destruct (sys_link c (s_fs s) (tpath cs1 x1) (tpath cs x)) as [f2 r2] eqn:E2. cbn [fst snd] in H.
       pose proof (g_link c f0 dr dcs _ cs d x _ f2 r2 T E2) as G2.
+      assert (K2 : keeps_new (s_fs s) f2).
+      { eapply (k_link c f0 dr dcs _ cs d x); eauto. intros i Ei.
+        rewrite (tgt_ino_nf c f0 dr dcs _ cs1 d1 x1 i T1 Ei) in Hb1. inversion Hb1; subst. exact Hi1. }
       destruct (t_link c f0 dr dcs _ cs d x _ f2 r2 T E2) as (C2 & A2 & P2). fold (mk s f2) in H.
       assert (S2 : stays d s (mk s f2)) by (apply stays_grows; auto).
       rewrite expect_ok_run in H.
@@ -454,9 +467,9 @@ Section Copy.
       rewrite bind_run in H. unfold add_link at 1 in H.
       set (s0 := {| s_fs := s_fs s; s_links := (ino, tpath cs x) :: s_links s; s_reads := s_reads s |}) in H.
       assert (T0 : Tgt (s_fs s0) cs d x) by exact T.
-      destruct (copy_file_spec s0 s' r cs d x src T0 Hab H) as ((C1 & A1 & L1) & EL1 & G1 & P1).
+      destruct (copy_file_spec s0 s' r cs d x src T0 Hab H) as ((C1 & A1 & L1 & K1) & EL1 & G1 & P1).
       split.
-      + split; auto. split; auto. intros [a ->] L0.
+      + split; auto. split; auto. split; [|exact K1]. intros [a ->] L0.
         destruct a. destruct (P1 eq_refl) as (i & [Hb Hs] & Hbi & Hf).
         intros e He. rewrite EL1 in He. simpl in He. destruct He as [<-|He].
         * simpl. assert (T' : Tgt (s_fs s') cs d x) by (eapply tgt_step; eauto).
@@ -478,6 +491,7 @@ Section Copy.
     - rewrite bind_run, sys_run in H. cbn [fst snd] in H.
       destruct (sys_mknod_reg c (s_fs s) (tpath cs x) _) as [f1 r1] eqn:E1. cbn [fst snd] in H.
       pose proof (g_mknod_reg c f0 dr dcs _ cs d x _ f1 r1 T E1) as G1.
+      pose proof (k_mknod_reg c f0 dr dcs _ cs d x _ f1 r1 T E1) as K1.
       destruct (t_mknod_reg c f0 dr dcs _ cs d x _ f1 r1 T E1) as (C1 & A1 & P1). fold (mk s f1) in H.
       rewrite expect_ok_run in H.
       destruct P1 as [[e ->]|[-> [Hc Hl]]]; injection H as <- <-; (split; [apply stays_grows; auto|split; [reflexivity|]]);
@@ -486,6 +500,7 @@ Section Copy.
     - rewrite bind_run, sys_run in H. cbn [fst snd] in H.
       destruct (sys_mknod c (s_fs s) (tpath cs x) typ _ rdev) as [f1 r1] eqn:E1. cbn [fst snd] in H.
       pose proof (g_mknod c f0 dr dcs _ cs d x _ _ _ f1 r1 T E1) as G1.
+      pose proof (k_mknod c f0 dr dcs _ cs d x _ _ _ f1 r1 T E1) as K1.
       destruct (t_mknod c f0 dr dcs _ cs d x _ _ _ f1 r1 T E1) as (C1 & A1 & P1). fold (mk s f1) in H.
       rewrite expect_ok_run in H.
       destruct P1 as [[e ->]|[-> [Hc Hl]]]; injection H as <- <-; (split; [apply stays_grows; auto|split; [reflexivity|]]);
@@ -527,19 +542,21 @@ Section Copy.
   Lemma stays_ok_pre {A} d s1 s2 s3 (r : A + N) : is_dir (s_fs s1) d = true ->
     stays d s1 s2 -> stays_ok d s2 s3 r -> stays_ok d s1 s3 r.
   Proof.
-    intros Hd (C2 & A2 & L2) (C3 & A3 & L3). split; auto. split; [eapply above_trans; eauto|auto].
+    intros Hd (C2 & A2 & L2 & K2) (C3 & A3 & L3 & K3). split; auto. split; [eapply above_trans; eauto|].
+    split; [auto|eapply keeps_new_trans; eauto].
   Qed.
 
   Lemma stays_ok_seq {A B} d s1 s2 s3 (a : A) (r : B + N) : is_dir (s_fs s1) d = true ->
     stays_ok d s1 s2 (@inl A N a) -> stays_ok d s2 s3 r -> stays_ok d s1 s3 r.
   Proof.
-    intros Hd (C2 & A2 & L2) (C3 & A3 & L3). split; auto. split; [eapply above_trans; eauto|].
+    intros Hd (C2 & A2 & L2 & K2) (C3 & A3 & L3 & K3). split; auto. split; [eapply above_trans; eauto|].
+    split; [|eapply keeps_new_trans; eauto].
     intros Hr L1. apply L3; auto. apply L2; auto. exists a. reflexivity.
   Qed.
 
   Lemma stays_ok_fail {A B} d s s' (r : A + N) (e : N) : stays_ok d s s' r -> stays_ok d s s' (@inr B N e).
-  Proof. intros (C & A0 & _). split; auto. split; auto. intros [a Ha]. discriminate. Qed.
+  Proof. intros (C & A0 & _ & K). split; auto. split; auto. split; auto. intros [a Ha]. discriminate. Qed.
 
   Lemma stays_ok_below {A} d d1 q s s' (r : A + N) : chain (s_fs s) d q d1 -> stays_ok d1 s s' r -> stays_ok d s s' r.
-  Proof. intros Hq (C & A0 & L). split; auto. split; auto. eapply above_mono; eauto. Qed.
+  Proof. intros Hq (C & A0 & L & K). split; auto. split; auto. eapply above_mono; eauto. Qed.
 End Copy.
